@@ -34,6 +34,7 @@ DOM = {
 	"int": [0, 1, 2, 3, 5, 7, -1, -2, 2**61 - 1, 2**61],
 	"float": [0.0, 0.5, 1.5, -2.0, 3.0, -0.0, 1e10],
 	"str": ["a", "b", "", "ab", "é"],
+	"weakhash-strings": ["plumless", "buckeroo", "codding", "gnu", "Aa", "BB", "AaAa", "BBBB", "AaBB", "ab", "ba", "abc", "cba"],      # pairs that collide under CRC-32 / the Java string hash / order-blind sums
 	"bool": [True, False],
 	"date": [V.D0, V.date(2021, 2, 28), V.date(1999, 12, 31)],
 	"nanfloat": [float("nan"), 0.0, -0.0, 1.5, float("inf"), -2.5],
@@ -505,6 +506,83 @@ def run_linear(chk, spec):
 
 RUNNERS["linear"] = run_linear
 
+def run_equal_cells(chk, spec):
+	"""two EQUAL cells that were built differently - a dict whose hash-colliding keys were inserted in another order, a set built in another order, an
+	equal tuple - are the same contents: vectors and tables that differ only in which of the two they hold have one fingerprint, and overwriting
+	the one by the other leaves the fingerprint as it is"""
+	P_ = 2 ** 61 - 1
+	pairs = {
+		"dict-colliding-keys": ({-1: "a", -2: "b", 3: "c"}, {3: "c", -2: "b", -1: "a"}), "dict-colliding-keys-2": ({1: "x", 1 + P_: "y"}, {1 + P_: "y", 1: "x"}),
+		"dict-tuple-keys": ({(0, -1): 1, (0, -2): 2}, {(0, -2): 2, (0, -1): 1}), "dict-plain": ({"a": 1, "b": 2}, {"b": 2, "a": 1}), "dict-colliding-values": ({"a": -1, "b": -2}, {"b": -2, "a": -1}),
+		"set-orders": ({-1, -2, 5}, {5, -2, -1}), "set-of-frozensets": ({frozenset({0}), frozenset({14})}, {frozenset({14}), frozenset({0})}), "set-mixed": ({1, "a", None}, {None, "a", 1}),
+		"nested-dict-in-list": ([{-1: 1, -2: 2}], [{-2: 2, -1: 1}]), "tuple-equal": ((1, (2, 3)), tuple([1, tuple([2, 3])])),
+	}
+	x, y = pairs[spec["pair"]]
+	if x != y:
+		raise ValueError("pair is not equal")
+	chk.judged("write-path", ("equal-cells", spec["pair"], spec["where"]))
+	if spec["where"] == "vector":
+		a, b = Vector([x, "pad"]), Vector([y, "pad"])
+	else:
+		a, b = Table({"c": [x, "pad"], "n": [1, 2]}), Table({"c": [y, "pad"], "n": [1, 2]})
+	fa, fb = fp(a), fp(b)
+	if not (fa.ok and fb.ok):
+		chk.fail("fingerprint() works on every vector and table", f"fingerprint/raises/equal-cells/{spec['pair']}", f"{spec!r}: {fa!r} / {fb!r}")
+		return
+	if fa.value != fb.value:
+		chk.fail("fingerprint() is a function of current contents only (equal contents, one fingerprint)", f"fingerprint/equal-contents-differ/{spec['pair']}/{spec['where']}", f"{spec!r}: {x!r} == {y!r} but {fa.value} != {fb.value}")
+		return
+	target = a if spec["where"] == "vector" else a.cols()[0]
+	w = call(target.__setitem__, 0, y)
+	f2 = fp(a)
+	if w.ok and f2.ok and f2.value != fa.value:
+		chk.fail("fingerprint() is a function of current contents only (equal contents, one fingerprint)", f"fingerprint/equal-overwrite-changes/{spec['pair']}/{spec['where']}", f"{spec!r}: overwriting the cell with an equal value changed {fa.value} -> {f2.value}")
+
+
+def run_type_history(chk, spec):
+	"""what other vectors the process fingerprinted before says nothing about this one: after a vector holding an UNHASHABLE instance of a class was
+	fingerprinted, vectors of hashable instances of that class still have the fingerprint of a freshly built equal vector, and a write that is undone
+	restores it"""
+	import dataclasses
+	from decimal import Decimal
+
+	@dataclasses.dataclass(frozen=True)
+	class Tag:
+		parts: object
+	kind = spec["kind"]
+	good = {"decimal": [Decimal("4"), Decimal("2.5"), Decimal("-1")], "frozen-dataclass": [Tag((1, 2)), Tag("x"), Tag(3)], "tuple-like": [(1, 2), (3,), ()], "slice": [slice(1, 2), slice(None), slice(0, 5, 2)]}[kind]
+	bad = {"decimal": Decimal("sNaN"), "frozen-dataclass": Tag([1, 2]), "tuple-like": (1, [2]), "slice": slice([1], 2)}[kind]
+	v = Vector(list(good))
+	t = Table({"c": list(good), "n": [1, 2, 3]})
+	f0, ft0 = fp(v), fp(t)
+	poison = Vector([bad, good[0]])
+	fpz = fp(poison)      # may work or raise - either way it is another vector's business
+	chk.judged("write-path", ("type-history", kind, fpz.ok))
+	for obj, before, label in ((v, f0, "vector"), (t, ft0, "table")):
+		now, fresh = fp(obj), fresh_fp(obj)
+		if not (before.ok and now.ok and fresh.ok):
+			continue
+		if now.value != fresh.value or now.value != before.value:
+			chk.fail("fingerprint() equals the fingerprint of a freshly built object with the same contents", f"fingerprint/stale/after-unhashable-{kind}/{label}",
+				f"{spec!r}: before {before.value}, now {now.value}, freshly built {fresh.value}")
+			return
+	col = v
+	old = col._underlying[0]
+	if call(col.__setitem__, 0, good[1]).ok and call(col.__setitem__, 0, old).ok:
+		back = fp(v)
+		if back.ok and f0.ok and back.value != f0.value:
+			chk.fail("fingerprint() is a function of current contents only", f"fingerprint/write-undo-does-not-restore/after-unhashable-{kind}", f"{spec!r}: {f0.value} -> {back.value}")
+			return
+	# and equal values of that class still agree (4 == 4.0 as Decimals)
+	if kind == "decimal":
+		a, b = fp(Vector([Decimal("4"), Decimal("1")])), fp(Vector([Decimal("4.0"), Decimal("1.00")]))
+		if a.ok and b.ok and a.value != b.value:
+			chk.fail("fingerprint() is a function of current contents only (equal contents, one fingerprint)", "fingerprint/equal-contents-differ/decimal-after-unhashable", f"{spec!r}: Decimal('4') vs Decimal('4.0'): {a.value} != {b.value}")
+
+
+RUNNERS["equal_cells"] = run_equal_cells
+RUNNERS["type_history"] = run_type_history
+
 
 def setup(chk):
 	pool.CENSUS.install()
@@ -513,6 +591,11 @@ def setup(chk):
 def run(chk):
 	recompute.add_cases(chk, "C16")
 	rng = chk.rng
+	for pair in ("dict-colliding-keys", "dict-colliding-keys-2", "dict-tuple-keys", "dict-plain", "dict-colliding-values", "set-orders", "set-of-frozensets", "set-mixed", "nested-dict-in-list", "tuple-equal"):
+		for where in ("vector", "table"):
+			chk.case("equal_cells", {"pair": pair, "where": where}, "equal-cells")
+	for kind in ("decimal", "frozen-dataclass", "tuple-like", "slice"):
+		chk.case("type_history", {"kind": kind}, "type-history")
 	for K in _multipliers():
 		for via in ("slice", "index-list", "table-row"):
 			for pos in ("adjacent-first", "adjacent-last", "apart"):
